@@ -136,6 +136,15 @@ def handleExec (ds : DS) (j : Json) : IO DS := do
   let preW : World :=
     if J.has j "pre" then parseWorld (J.get j "pre")
     else [{ addr := menv.caller, balance := (J.intOf env "caller_balance").toNat }, { addr := menv.callee, code := menv.code, storage := pre }]
+  -- ---------------- C01 on the implementation's own account dump: whatever the program does — value calls, SELFDESTRUCT,
+  -- failed frames — the accounts hold after it what they held before (the VM has no way to mint or burn)
+  if J.has j "pre" && J.has res "post" && implOutcome != "timeout" && implOutcome != "fatal" && implOutcome != "panic" then
+    let sumBal (w : World) : Nat := w.foldl (fun acc a => acc + a.balance) 0
+    let before := sumBal preW
+    let after := sumBal (parseWorld (J.get res "post"))
+    ds := stat ds "mon.c01.value_conserved"
+    if before != after then
+      ds ← finding ds "monitor" "C01" "value_conserved" id s!"the accounts held {before} before and {after} after ({implOutcome}) code={codeHex} input={J.strOf j "input"} value={J.intOf j "value"}"
   let r := execTop menv gas preW
   let mOutcome := outcomeStr r
   let mStorage := normStorage (((r.world.get menv.callee).map (·.storage)).getD [])
@@ -172,6 +181,9 @@ def handleExec (ds : DS) (j : Json) : IO DS := do
     let gasDependent := sr.seen &&& ((1 <<< 0x5a) ||| (1 <<< 0x45)) != 0
     if gasDependent then ds := stat ds "spec.skipped_reads_gas"
     else if outcomeStr sr == "unsupported" then ds := stat ds "spec.skipped_unsupported"
+    -- the specification run is cut after gas + 1000 instructions: a program that the implementation stopped for another
+    -- reason (e.g. the value transfer failed and the code then ran out of gas) may need more; nothing is concluded from it
+    else if outcomeStr sr == "model-out-of-fuel" then ds := stat ds "spec.skipped_out_of_fuel"
     else
       ds := stat ds "spec.compared"
       let sOutcome := outcomeStr sr
